@@ -573,8 +573,13 @@ func execute(ctx context.Context, rt wazero.Runtime, cm wazero.CompiledModule, e
 			}
 			args := make([]uint64, 0)
 			for _, p := range defs[n].ParamTypes() {
-				args = append(args, 0)
-				if p == 0x7b {
+				switch p {
+				case 0x7b:
+					args = append(args, 0, 0)
+				case 0x6f:
+					// externref: an opaque, non-null host value (never dereferenced by a valid module)
+					args = append(args, 0x10)
+				default:
 					args = append(args, 0)
 				}
 			}
@@ -700,7 +705,7 @@ func seedBytes(t *rapid.T, label string) ([]byte, string) {
 // semanticMutation removes or alters one module-level entity of a valid module (memory,
 // tables, a global, a function's type, two bodies swapped, start function) and re-encodes it:
 // the result is usually invalid in exactly one respect, which the validator has to notice.
-func semanticMutation(t *rapid.T, m *wasmenc.Module) ([]byte, string) {
+func semanticMutation(t *rapid.T, m *wasmenc.Module) ([]byte, string, bool) {
 	c := *m
 	c.Exports = append([]wasmenc.Export{}, m.Exports...)
 	c.Funcs = append([]wasmenc.Func{}, m.Funcs...)
@@ -719,11 +724,11 @@ func semanticMutation(t *rapid.T, m *wasmenc.Module) ([]byte, string) {
 	case 0, 1:
 		c.Mems, c.Datas, c.DataCnt = nil, nil, false
 		dropExports(wasmenc.KMem)
-		return c.Encode(), "sem-drop-memory"
+		return c.Encode(), "sem-drop-memory", false
 	case 2:
 		c.Tables, c.Elems = nil, nil
 		dropExports(wasmenc.KTable)
-		return c.Encode(), "sem-drop-tables"
+		return c.Encode(), "sem-drop-tables", false
 	case 3:
 		if len(c.Globals) > 0 {
 			c.Globals = c.Globals[:len(c.Globals)-1]
@@ -735,13 +740,13 @@ func semanticMutation(t *rapid.T, m *wasmenc.Module) ([]byte, string) {
 			}
 			c.Exports = e
 		}
-		return c.Encode(), "sem-drop-global"
+		return c.Encode(), "sem-drop-global", false
 	case 4:
 		if len(c.Funcs) > 0 && len(c.Types) > 1 {
 			i := rapid.IntRange(0, len(c.Funcs)-1).Draw(t, "fn")
 			c.Funcs[i].Type = uint32(rapid.IntRange(0, len(c.Types)-1).Draw(t, "ty"))
 		}
-		return c.Encode(), "sem-retype-function"
+		return c.Encode(), "sem-retype-function", false
 	case 5:
 		if len(c.Funcs) > 1 {
 			i := rapid.IntRange(0, len(c.Funcs)-1).Draw(t, "fa")
@@ -749,7 +754,7 @@ func semanticMutation(t *rapid.T, m *wasmenc.Module) ([]byte, string) {
 			c.Funcs[i].Body, c.Funcs[j].Body = c.Funcs[j].Body, c.Funcs[i].Body
 			c.Funcs[i].Locals, c.Funcs[j].Locals = c.Funcs[j].Locals, c.Funcs[i].Locals
 		}
-		return c.Encode(), "sem-swap-bodies"
+		return c.Encode(), "sem-swap-bodies", false
 	default:
 		// only module-defined functions: a start function that is an imported host function is
 		// the class of the open finding C03-compiler-reexported-host-function (same root cause)
@@ -757,7 +762,7 @@ func semanticMutation(t *rapid.T, m *wasmenc.Module) ([]byte, string) {
 			c.Start = wasmenc.P(c.NumImportedFuncs() + uint32(rapid.IntRange(0, n-1).Draw(t, "start")))
 			evid.Label("excluded-start-function-is-host-import", 0)
 		}
-		return c.Encode(), "sem-set-start"
+		return c.Encode(), "sem-set-start", false
 	}
 }
 
@@ -767,7 +772,7 @@ func semanticMutation(t *rapid.T, m *wasmenc.Module) ([]byte, string) {
 // element segment / export / global initialiser that names the same dangling function index
 // (ref.func is only valid for "declared" functions, and what declares a function is checked
 // elsewhere than the instruction). With k < 0 the index is in range and the module stays valid.
-func danglingIndex(t *rapid.T, c *wasmenc.Module) ([]byte, string) {
+func danglingIndex(t *rapid.T, c *wasmenc.Module) ([]byte, string, bool) {
 	c.Types = append([]wasmenc.FuncType{}, c.Types...)
 	c.Elems = append([][]byte{}, c.Elems...)
 	c.Globals = append([]wasmenc.Global{}, c.Globals...)
@@ -791,8 +796,97 @@ func danglingIndex(t *rapid.T, c *wasmenc.Module) ([]byte, string) {
 		return uint32(v)
 	}
 	b := wasmenc.NewB()
-	kind := rapid.SampledFrom([]string{"ref.func+declare", "ref.func+declare", "ref.func+declare", "ref.func", "call", "global.get", "local.get", "br", "call_indirect-type", "call_indirect-table", "table.get", "elem.drop", "data.drop", "export", "start", "elem-item", "callee-type", "callee-type", "block-type", "block-type", "memop-no-memory", "memop-no-memory", "memop-no-memory", "padded-immediate", "padded-immediate", "elem-expr", "elem-expr", "elem-expr"}).Draw(t, "dangling")
+	kind := rapid.SampledFrom([]string{"ref.func+declare", "ref.func+declare", "ref.func+declare", "ref.func", "call", "global.get", "local.get", "br", "call_indirect-type", "call_indirect-table", "table.get", "elem.drop", "data.drop", "export", "start", "elem-item", "callee-type", "callee-type", "block-type", "block-type", "memop-no-memory", "memop-no-memory", "memop-no-memory", "padded-immediate", "padded-immediate", "elem-expr", "elem-expr", "elem-expr",
+		"if-noelse-type", "if-noelse-type", "if-noelse-type", "call_indirect-elemtype", "call_indirect-elemtype", "call_indirect-elemtype"}).Draw(t, "dangling")
+	valid := false
+	var dangleParams []byte
 	switch kind {
+	case "if-noelse-type":
+		// an `if` without `else` whose block type takes T* and yields U* (same arity): valid exactly
+		// when T* == U* (the missing else branch hands the parameters on as the results); executed
+		// with the condition false and true
+		vts := []byte{wasmenc.I32, wasmenc.I64, wasmenc.F32, wasmenc.F64, wasmenc.V128, wasmenc.FuncRef, wasmenc.ExternRef}
+		n := rapid.IntRange(1, 2).Draw(t, "arity")
+		var ps, rs []byte
+		for i := 0; i < n; i++ {
+			ps = append(ps, rapid.SampledFrom(vts).Draw(t, "pt"))
+		}
+		rs = append(rs, ps...)
+		if rapid.IntRange(0, 3).Draw(t, "sametypes") != 0 {
+			for i := range rs {
+				rs[i] = rapid.SampledFrom(vts).Draw(t, "rt")
+			}
+		}
+		valid = string(ps) == string(rs)
+		c.Types = append(c.Types, wasmenc.FuncType{P: ps, R: rs})
+		bt := int64(len(c.Types) - 1)
+		push := func(ty byte) {
+			switch ty {
+			case wasmenc.I32:
+				b.I32Const(7)
+			case wasmenc.I64:
+				b.I64Const(7)
+			case wasmenc.F32:
+				b.F32(7)
+			case wasmenc.F64:
+				b.F64(7)
+			case wasmenc.V128:
+				b.V128Const(7, 7)
+			default:
+				b.RefNull(ty)
+			}
+		}
+		for _, cond := range []int32{0, 1} {
+			for _, ty := range ps {
+				push(ty)
+			}
+			b.I32Const(cond).Raw(0x04).Append(wasmenc.S64(bt))
+			for range ps {
+				b.Drop()
+			}
+			for _, ty := range rs {
+				push(ty)
+			}
+			b.End()
+			for range rs {
+				b.Drop()
+			}
+		}
+	case "call_indirect-elemtype":
+		// call_indirect through the last of several tables of drawn element types (valid exactly
+		// when that table holds funcref), after the caller's externref argument (a non-null host
+		// value) was stored into it when it is an externref table
+		c.Tables = append([][]byte{}, c.Tables...)
+		if impTables+uint32(len(c.Tables)) == 0 || rapid.Bool().Draw(t, "retable") {
+			// replace the module's own tables (the other functions no longer decide the verdict)
+			c.Tables, c.Elems, c.Start = nil, nil, nil
+			var e []wasmenc.Export
+			for _, x := range c.Exports {
+				if x.Kind != wasmenc.KTable {
+					e = append(e, x)
+				}
+			}
+			c.Exports = e
+			for i := range c.Funcs {
+				c.Funcs[i].Body, c.Funcs[i].Locals = []byte{0x00}, nil
+			}
+			if impTables == 0 {
+				c.Tables = append(c.Tables, wasmenc.TableType(rapid.SampledFrom([]byte{wasmenc.FuncRef, wasmenc.ExternRef}).Draw(t, "t0"), 2, -1))
+			}
+		}
+		last := rapid.SampledFrom([]byte{wasmenc.FuncRef, wasmenc.ExternRef}).Draw(t, "tlast")
+		c.Tables = append(c.Tables, wasmenc.TableType(last, 2, -1))
+		ti := impTables + uint32(len(c.Tables)) - 1
+		valid = last == wasmenc.FuncRef
+		dangleParams = []byte{wasmenc.ExternRef}
+		if last == wasmenc.ExternRef {
+			b.I32Const(0).LocalGet(0).TableSet(ti)
+		}
+		b.I32Const(0).CallIndirect(uint32(len(c.Types)), ti)
+		if valid {
+			// (the call traps: slot 0 is null; what is checked is that the module is accepted)
+			evid.Label("call_indirect-through-funcref-table-beyond-0", 1)
+		}
 	case "ref.func+declare", "ref.func":
 		f := at(nfuncs)
 		b.RefFunc(f).Drop()
@@ -942,11 +1036,15 @@ func danglingIndex(t *rapid.T, c *wasmenc.Module) ([]byte, string) {
 		c.Elems = append(c.Elems, wasmenc.PassiveElemFuncs([]uint32{0, at(nfuncs)}))
 	}
 	c.Types = append(c.Types, wasmenc.FuncType{})
+	if dangleParams != nil {
+		// (call_indirect above names the ()->() type just added; the function itself takes the argument)
+		c.Types = append(c.Types, wasmenc.FuncType{P: dangleParams})
+	}
 	c.Funcs = append(c.Funcs, wasmenc.Func{Type: uint32(len(c.Types) - 1), Body: b.Bytes()})
 	// first among the exports, so that it is executed when the module is accepted
 	c.Exports = append([]wasmenc.Export{{Name: "dangle", Kind: wasmenc.KFunc, Idx: nfuncs - 1}}, c.Exports...)
 	evid.Label("dangling:"+kind, 1)
-	return c.Encode(), fmt.Sprintf("sem-dangling-%s%+d", kind, k)
+	return c.Encode(), fmt.Sprintf("sem-dangling-%s%+d", kind, k), valid
 }
 
 // memInstr appends one randomly chosen memory-touching instruction with constant operands
@@ -1017,8 +1115,9 @@ func propSemantic(t *rapid.T) {
 	cfg := smallCfg(t, gf)
 	cfg.MaxFuncs, cfg.MaxStmts, cfg.MaxDepth = rapid.IntRange(1, 4).Draw(t, "mf"), rapid.IntRange(2, 6).Draw(t, "ms"), rapid.IntRange(2, 5).Draw(t, "md")
 	m := wasmgen.Generate(t, cfg)
-	in, op := semanticMutation(t, m.Enc)
-	c := &Case{Input: in, Features: uint64(feats), Origin: "semantic:" + op}
+	in, op, valid := semanticMutation(t, m.Enc)
+	// (the typed kinds know whether their module is valid: a valid one must be accepted)
+	c := &Case{Input: in, Features: uint64(feats), Origin: "semantic:" + op, Valid: valid}
 	evid.Journal(c)
 	finish(t, c, RunCase(c))
 }
